@@ -1,3 +1,4 @@
+from rtamt.semantics.arithmetic import saturating
 import math
 import operator
 import collections
@@ -68,7 +69,7 @@ class StlDiscreteTimeOfflineAstVisitor(StlAstVisitor):
 
         sample_return = []
         for i in sample:
-            out_sample = math.exp(i)
+            out_sample = saturating.exp(i)
             sample_return.append(out_sample)
         return sample_return
 
@@ -78,7 +79,7 @@ class StlDiscreteTimeOfflineAstVisitor(StlAstVisitor):
 
         sample_return = []
         for i in range(len(sample_1)):
-            out_sample = math.pow(sample_1[i], sample_2[i])
+            out_sample = saturating.power(sample_1[i], sample_2[i])
             sample_return.append(out_sample)
         return sample_return
 
